@@ -2,6 +2,7 @@
 import re
 
 from ..engine import Ctx
+from . import specconst
 from ..facts import callee, op_local, pos_line
 from ..mirutil import Defs, switch_subject
 
@@ -102,6 +103,7 @@ def rule_dispatch(ctx):
 def main(pid, tier, repo=None):
     ctx = Ctx(pid, tier, configs=("workspace",), repo=repo)
     rule_dispatch(ctx)
+    specconst.run(ctx, pid)
     ctx.not_decided("numerical agreement of any kernel with the mathematical definition, or between the generic and vector kernels")
     return ctx.finish(
         "Dispatch agreement only: every transform type the format defines has a handler and the generic, SSE2 and SSE4.1 dispatchers "
